@@ -1,11 +1,12 @@
 SPECIFICATION Spec
 CONSTANTS
   Tracers = {"specialized-antarctic", "uniform", "layered", "basic-antarctic"}
-  Geos = {1, 2, 3, 4, 5}
+  Geos = {1, 2, 3, 4, 5, 6}
   Interps = {0, 1}
   Factors <- FactorsMC
   Moves <- MovesMC
   Bound = 6
+  Steps = {1, 2, 3}
   MaxLevel = 4
 CONSTRAINT LevelBound
 INVARIANT Consistent
